@@ -512,6 +512,16 @@ def run(rep, tier):
         from . import c09, c05
         c09.clause_a(facts, rep)
         c05.clause_a(facts, rep)
+    # 'serialization succeeds for every document': the string writer stays inside the reservation the serializer made for it
+    # and inside the page of the source string (reserve formula, tail guard, bounce copy: shared with C09), also when the
+    # kernel is chosen at run time on a portable baseline (K8)
+    from . import c09 as _c09
+    for cfg9, san in ((('K1', False), ('K8', False)) if tier == 'quick' else (('K1', False), ('K2', True), ('K3', False), ('K4', False), ('K8', False))):
+        f9 = get_facts(cfg9)
+        rep.unit(f9)
+        m9 = _c09.clause_a(f9, rep)
+        _c09.clause_bc(f9, rep, m9)
+        _c09.clause_de(f9, rep, san)
     rep.trust('clang 14 front end', 'std::realloc(p, n) returns a block of n bytes keeping the old contents',
               *['%s write contract: %s' % (k, v['why']) for k, v in WRITER_CONTRACT.items()])
     rep.assumptions += [
